@@ -721,6 +721,8 @@ type simConn struct {
 	cas remoteexecution.ContentAddressableStorageServer
 	s   *rt.Sched
 	c   *sim.RunCtx
+	// compressors announced by GetCapabilities (the client negotiates zstd from it)
+	compressors []remoteexecution.Compressor_Value
 }
 
 func (n *simConn) Invoke(ctx context.Context, method string, args, reply any, opts ...grpc.CallOption) error {
@@ -738,6 +740,9 @@ func (n *simConn) Invoke(ctx context.Context, method string, args, reply any, op
 		out, err = n.cas.BatchUpdateBlobs(ctx, in.(*remoteexecution.BatchUpdateBlobsRequest))
 	case "/build.bazel.remote.execution.v2.ContentAddressableStorage/BatchReadBlobs":
 		out, err = n.cas.BatchReadBlobs(ctx, in.(*remoteexecution.BatchReadBlobsRequest))
+	case "/build.bazel.remote.execution.v2.Capabilities/GetCapabilities":
+		out = &remoteexecution.ServerCapabilities{CacheCapabilities: &remoteexecution.CacheCapabilities{
+			DigestFunctions: AllDigestFunctions, SupportedCompressors: n.compressors}}
 	default:
 		return status.Errorf(codes.Unimplemented, "simnet: method %s", method)
 	}
@@ -893,7 +898,8 @@ func c14BackToBack(c *sim.RunCtx) {
 	}
 	chunk := []int{1, 3, 8, 64}[t.Choose(4)]
 	failRate := []int{0, 0, 100}[t.Choose(3)]
-	desc := fmt.Sprintf("back-to-back clients=%d chunk=%d failRate=%d fn=%v", clients, chunk, failRate, fn)
+	clientZstd := t.Chance(1, 2)
+	desc := fmt.Sprintf("back-to-back clients=%d chunk=%d failRate=%d fn=%v clientZstd=%v", clients, chunk, failRate, fn, clientZstd)
 	c.Sample["case"] = desc
 	c.Note("case %s plans=%v", desc, plans)
 	injected := 0
@@ -908,11 +914,18 @@ func c14BackToBack(c *sim.RunCtx) {
 			return nil
 		}
 		conn := &simConn{bs: grpcservers.NewByteStreamServer(backend, chunk, newZstdPool()), cas: grpcservers.NewContentAddressableStorageServer(backend, 1<<20), s: s, c: c}
-		// identity compression only: the client's zstd path uses io.Pipe and a
-		// plain goroutine, which block outside the simulator's control
+		// half of the runs: the client negotiates zstd (its read path feeds a
+		// decoder through a pipe from its own goroutine: seam S7 substitutes a
+		// simulated pipe for io.Pipe there)
+		var clientPool bb_zstd.Pool
+		if clientZstd {
+			clientPool = newZstdPool()
+			conn.compressors = []remoteexecution.Compressor_Value{remoteexecution.Compressor_ZSTD}
+			c.Count("probe_b2b_client_zstd", 1)
+		}
 		var ba blobstore.BlobAccess = grpcclients.NewCASBlobAccess(conn, func() (uuid.UUID, error) {
 			return uuid.MustParse("11111111-2222-3333-4444-555555555555"), nil
-		}, chunk, nil)
+		}, chunk, clientPool)
 		ctx := context.Background()
 		done := 0
 		for ci := range plans {
@@ -995,11 +1008,11 @@ func init() {
 			{Name: "back-to-back", Weight: 3, Fn: c14BackToBack},
 		},
 		Components: map[string][]string{
-			"real": {"pkg/blobstore/grpcservers: ByteStream, ContentAddressableStorage, ActionCache servers", "pkg/blobstore/grpcclients.casBlobAccess (identity compression)", "pkg/digest resource-name codecs", "pkg/zstd (pool, read closer) with klauspost/compress in synchronous mode", "pkg/blobstore/buffer"},
+			"real": {"pkg/blobstore/grpcservers: ByteStream, ContentAddressableStorage, ActionCache servers", "pkg/blobstore/grpcclients.casBlobAccess (identity and negotiated zstd compression)", "pkg/digest resource-name codecs", "pkg/zstd (pool, read closer) with klauspost/compress in synchronous mode", "pkg/blobstore/buffer"},
 			"stub": {"transport (simnet: scripted/adversarial request streams, in-memory client connection with per-message scheduling points, stream aborts, Send failures)", "backend (model store with injected failures)"},
 		},
 		Rule:           "write-state-machine: adversarial WriteRequest sequences (first offset != 0, gaps, overlaps, missing/repeated finish_write, data after finish, empty chunks, bad resource names, damaged content, identity and zstd, stream abort at message k, backend failure) with a reference verdict 'contiguous from zero, finished, matching'; read-offsets: every offset in -1..size+1, chunk sizes, identity and zstd, absent objects, failing Send; batch-and-ac: BatchUpdateBlobs/BatchReadBlobs with mixed valid/invalid/absent entries and size limits, FindMissingBlobs, ActionCache round trip; back-to-back: the repository's client over an in-memory connection to its servers must behave like the model backend under 1-3 concurrent clients and injected backend failures; non-trivial = an invalid sequence, a fault, a non-zero offset or the back-to-back profile",
 		RequiredProbes: []string{"probe_write_accepted", "probe_write_rejected", "probe_write_zstd", "probe_read_suffix_ok", "probe_read_zstd_offset", "probe_batch_update", "probe_batch_read", "probe_find_missing", "probe_action_cache", "probe_b2b_put", "probe_b2b_get_ok"},
-		Assumptions:    []string{"messages after the first finish_write are don't-care (acceptance and rejection both allowed)", "the client's zstd path (io.Pipe + plain goroutine) is not run under the simulator; zstd is exercised on the server side"},
+		Assumptions:    []string{"messages after the first finish_write are don't-care (acceptance and rejection both allowed)"},
 	})
 }
